@@ -2480,4 +2480,37 @@ theorem jsparse_render_funcs (fs : List JsFunc) (h : ∀ f ∈ fs, ImgF f) :
     exact wfF f (h f hf))]
   exact readProgram_funcs fs h
 
+/-! # the generator's text parses to the AST of Props/C04d–f -/
+
+section
+open SoyVerif.Model SoyVerif.Model.JsGen
+open SoyVerif.Props.C04d (toCmds At walkCmds_renders)
+open SoyVerif.Props.C04f (toFile visitSoyFile_renders)
+variable (sk : List Bytes → List Bytes) (o : Options)
+
+/-- STATEMENTS: from every state at the right indentation, buffer, autoescape mode and scope, the generator model (ES5
+    formatter, no message bundle) writes for a command list of the fragment a text that the grammar reads as exactly
+    the statement list `toCmds` translates it to (Props/C04d: the AST whose semantics is the subject of the C04
+    theorems), in canonical form -/
+theorem gen_stmts_parse (ho : o.messages = none) (h5 : isEs6 o = false) (ae : Autoescape) (cs : CmdList) (buf : Bytes)
+    (sc : Scope) (r : JsStmts × Scope) (h : toCmds ae buf cs sc = some r) (hi : ImgSs r.1) (ind : Nat) (s : St)
+    (hs : At ind buf ae sc s) :
+    ∃ ps s', walkCmds sk o cs s = .ok ((), ps, s') ∧ jsParseStmts (printPieces ps) = some (canonSs r.1) := by
+  obtain ⟨s', hw, _⟩ := walkCmds_renders sk o ae ho cs buf sc r h ind s hs
+  rw [h5] at hw
+  exact ⟨_, s', hw, jsparse_render_stmts r.1 ind hi⟩
+
+/-- FILES (the functions): the text the generator model writes for a file of the fragment ends with a text that the
+    grammar reads, as a program, as exactly the functions `toFile` translates the file to (Props/C04f), in canonical
+    form; before it stand the two comment lines and the namespace declarations -/
+theorem gen_funcs_parse (ho : o.messages = none) (h5 : isEs6 o = false) (f : SoyFile) (r : List JsFunc × Scope)
+    (h : toFile f = some r) (hi : ∀ g ∈ r.1, ImgF g) :
+    ∃ pre fs s', visitSoyFile sk o f initState = .ok ((), pre ++ fs, s') ∧
+      jsParseFile (printPieces fs) = some (r.1.map canonF) := by
+  obtain ⟨pre, s', hw, _⟩ := visitSoyFile_renders sk o ho f r h
+  rw [h5] at hw
+  exact ⟨pre, _, s', hw, jsparse_render_funcs r.1 hi⟩
+
+end
+
 end SoyVerif.Props.C14c
